@@ -26,7 +26,7 @@ func (r *recReader) Read(p []byte) (int, error) {
 	return n, err
 }
 
-// replayReader feeds a recorded random stream back (zeros once exhausted, which is flagged).
+// replayReader feeds a recorded random stream back (ones once exhausted, which is flagged).
 type replayReader struct {
 	data      []byte
 	pos       int
@@ -39,11 +39,44 @@ func (r *replayReader) Read(p []byte) (int, error) {
 			p[i] = r.data[r.pos]
 			r.pos++
 		} else {
-			p[i] = 0
+			// past the recorded stream (flagged): ones, not zeros - a dealer that keeps drawing until a byte is
+			// non-zero (rejection sampling) must not hang the harness
+			p[i] = 1
 			r.exhausted = true
 		}
 	}
 	return len(p), nil
+}
+
+// zeroLead: re-run Split on the recorded random stream with the LEADING coefficient of one secret byte's
+// polynomial set to zero. A dealer that draws every non-constant coefficient uniformly from the whole field (zero
+// included - what "fewer than t shares are consistent with every possible secret" rests on) uses that byte as it
+// comes; the shares are reported as a plain `split` operation, so the model (which uses the stream verbatim)
+// must produce the same ones.
+func zeroLead(out *vh.Out, secret []byte, n, th int, recorded []byte, idx int) {
+	l := len(secret)
+	need := l * (th - 1)
+	mod := append([]byte{}, recorded...)
+	mod[len(mod)-need+idx*(th-1)+(th-2)] = 0
+	rr := &replayReader{data: mod}
+	old := rand.Reader
+	rand.Reader = rr
+	parts, err := Split(secret, n, th)
+	rand.Reader = old
+	coeffs := mod[len(mod)-need:]
+	if err != nil {
+		out.Op("err!VIOL:Split failed on a random stream whose leading coefficient is zero - the dealer does not draw its coefficients uniformly from the whole field, so sub-threshold shares exclude candidate secrets#dealer-coefficients-not-uniform", "split", vh.Hex(secret), "00", vh.Hex(coeffs), vh.I(int64(th)))
+		return
+	}
+	xs := make([]byte, n)
+	for j := range parts {
+		xs[j] = parts[j][l]
+	}
+	res := sharesStr(parts)
+	if rr.exhausted || rr.pos != len(mod) {
+		res += "!VIOL:Split did not use the random stream as it came when a leading coefficient was zero (it drew again) - the dealer's coefficients are not uniform on the whole field, so sub-threshold shares exclude candidate secrets#dealer-coefficients-not-uniform"
+	}
+	out.Op(res, "split", vh.Hex(secret), vh.Hex(xs), vh.Hex(coeffs), vh.I(int64(th)))
 }
 
 // influence: re-run Split on the recorded random stream with ONE coefficient byte changed and report which
@@ -226,6 +259,7 @@ func TestVerifC20(t *testing.T) {
 		}
 		coeffs := recorded[len(recorded)-need:]
 		out.Op(sharesStr(parts), "split", vh.Hex(secret), vh.Hex(xs), vh.Hex(coeffs), vh.I(int64(th)))
+		zeroLead(out, secret, n, th, append([]byte{}, recorded...), rng.Intn(l))
 		if n <= 12 {
 			for q := 0; q < 3; q++ {
 				relpos := rng.Intn(need)
